@@ -1100,6 +1100,15 @@ pub fn run_behaviour(hist: &[J], max_height: Option<usize>) -> Vec<Mismatch> {
                             if seen[n] > 1 {
                                 out.push(Mismatch { prop: "C02", step: i, what: format!("node {n} function ran more than once in one stabilise (then the stabilise panicked)") });
                             }
+                            // ... and so are functions that had no business running at all (C03 / C05)
+                            let flag = |k: &str, d: bool| e[k].get(*n - 1).and_then(|b| b.as_bool()).unwrap_or(d);
+                            if seen[n] == 1 && e["inv"].as_array().map_or(false, |v| !v.iter().any(|w| w["n"].as_u64() == Some(*n as u64))) {
+                                if flag("stale", false) {
+                                    out.push(Mismatch { prop: "C03", step: i, what: format!("node {n} created by a superseded run of its bind was invoked (then the stabilise panicked)") });
+                                } else if !flag("cone", true) {
+                                    out.push(Mismatch { prop: "C05", step: i, what: format!("node {n} function ran outside the cone of every live observer (then the stabilise panicked)") });
+                                }
+                            }
                             if let Some(w) = e["inv"].as_array().and_then(|v| v.iter().find(|w| w["n"].as_u64() == Some(*n as u64))) {
                                 if J::Array(args.clone()) != w["args"] {
                                     out.push(Mismatch { prop: "C02", step: i, what: format!("node {n} ran with args {args:?}, final inputs are {} (then the stabilise panicked)", w["args"]) });
